@@ -222,14 +222,37 @@ def run(tier, v):
     # 0. concurrent histories: recorded first, validated in the background
     conc = ConcStage(binp, wd, thorough, seed, v)
 
-    # 1. the design: exhaustive model checking of the C10 invariants
-    mc = vlib.tlc(PID, "mc", "MC_Nflog", "MC_Nflog_thorough.cfg" if thorough else "MC_Nflog.cfg",
-                  timeout=1500 if thorough else 300, coverage=True)
-    vlib.tlc_must_pass(mc, "MC_Nflog")
-    dead = [a for a, (d, g) in mc.coverage.items() if g == 0]
-    if dead:
-        raise vlib.Inconclusive("MC_Nflog: actions never taken: %s" % dead)
-    log("  MC_Nflog: %d states generated, %d distinct, depth %d, %.1fs" % (mc.generated, mc.distinct, mc.depth, mc.wall))
+    # 1. the design: exhaustive model checking of the C10 invariants (background thread)
+    # 3. direction B: recorded runs of the real log validated by the trace specification
+    #    (background thread; both are joined after direction A)
+    bg, bg_err = {}, []
+
+    def job_mc():
+        bg["mc"] = vlib.tlc(PID, "mc", "MC_Nflog", "MC_Nflog_thorough.cfg" if thorough else "MC_Nflog.cfg",
+                            timeout=1500 if thorough else 300, coverage=True, workers=8)
+
+    trace = os.path.join(wd, "rec.ndjson")
+
+    def job_record():
+        out = os.path.join(wd, "record.json")
+        nrun = 3000 if thorough else 300
+        rc, txt = vlib.go_run_test(binp, "TestRecord$", ["-trace", trace, "-out", out, "-n", str(nrun),
+                                                        "-depth", "40", "-seed", str(seed)])
+        if rc != 0:
+            raise vlib.Inconclusive("record harness failed:\n" + txt[-3000:])
+        bg["rec"] = vlib.load_result(out)
+        bg["tr"], bg["rejects"] = vlib.validate_traces(PID, "trace", "Trace_Nflog", "Trace_Nflog.cfg", trace)
+
+    def guarded(f):
+        def g():
+            try:
+                f()
+            except Exception as e:
+                bg_err.append(e)
+        return g
+    jobs = [threading.Thread(target=guarded(f), daemon=True) for f in (job_mc, job_record)]
+    for t in jobs:
+        t.start()
 
     # 2. direction A: behaviours generated by TLC replayed on the real log
     gen1 = os.path.join(wd, "gen_exh.jsonl")
@@ -258,18 +281,19 @@ def run(tier, v):
         v.violation("real nflog.Log deviates from Nflog.tla: %s at step %d: want %s got %s" %
                     (m["what"], m["step"], json.dumps(m.get("want"))[:400], json.dumps(m.get("got"))[:400]), [rp])
 
-    # 3. direction B: recorded runs of the real log validated by the trace specification
-    trace = os.path.join(wd, "rec.ndjson")
-    out = os.path.join(wd, "record.json")
-    nrun = 3000 if thorough else 300
-    rc, txt = vlib.go_run_test(binp, "TestRecord$", ["-trace", trace, "-out", out, "-n", str(nrun),
-                                                    "-depth", "40", "-seed", str(seed)])
-    if rc != 0:
-        raise vlib.Inconclusive("record harness failed:\n" + txt[-3000:])
-    rec = vlib.load_result(out)
+    for t in jobs:
+        t.join()
+    for e in bg_err:
+        raise e if isinstance(e, vlib.Inconclusive) else vlib.Inconclusive("background stage failed: %r" % e)
+    mc = bg["mc"]
+    vlib.tlc_must_pass(mc, "MC_Nflog")
+    dead = [a for a, (d, g) in mc.coverage.items() if g == 0]
+    if dead:
+        raise vlib.Inconclusive("MC_Nflog: actions never taken: %s" % dead)
+    log("  MC_Nflog: %d states generated, %d distinct, depth %d, %.1fs" % (mc.generated, mc.distinct, mc.depth, mc.wall))
+    rec, rejects = bg["rec"], bg["rejects"]
     for m in rec["mismatches"][:5]:
         v.violation("real nflog.Log: %s: %s" % (m["what"], m.get("got")), [trace])
-    tr, rejects = vlib.validate_traces(PID, "trace", "Trace_Nflog", "Trace_Nflog.cfg", trace)
     for run, d, ev, pre in rejects[:5]:
         rp = os.path.join(wd, "rejected_run_%s.json" % run)
         json.dump({"rejected_event": ev, "preceding": pre}, open(rp, "w"), indent=1)
